@@ -1187,8 +1187,10 @@ void Parser::maybeAmbiguateCastExpression(ExpressionSyntax*& expr)
                   return, "");
 
     auto castExpr = expr->asCastExpression();
+    if (!castExpr->expr_)
+        return;
     auto prefixExpr = castExpr->expr_->asPrefixUnaryExpression();
-    if (!(prefixExpr->asPrefixUnaryExpression()
+    if (!(prefixExpr
             && (prefixExpr->kind() == SyntaxKind::AddressOfExpression
                     || prefixExpr->kind() == SyntaxKind::PointerIndirectionExpression
                     || prefixExpr->kind() == SyntaxKind::UnaryPlusExpression
